@@ -188,6 +188,11 @@ func c18FailureCap(rate time.Duration) int {
 	return c18MaxFailures
 }
 
+// c18MultiErr: an error type that is not comparable (a slice)
+type c18MultiErr []string
+
+func (e c18MultiErr) Error() string { return strings.Join(e, "; ") }
+
 func c18Cancellable(withCause bool) (context.Context, context.CancelFunc) {
 	if !withCause {
 		return context.WithCancel(context.Background())
@@ -377,6 +382,8 @@ func (m *c18Machine) value() (any, error) {
 			err = fmt.Errorf("op %d: %w", idx+1, context.Canceled)
 		case "value":
 			err = c18ValErr{idx + 1}
+		case "uncomparable":
+			err = c18MultiErr{fmt.Sprintf("plain#%d", idx+1), "and another"} // a plain error whose dynamic type cannot be compared with ==
 		default:
 			err = &c18Err{fmt.Sprintf("plain#%d", idx+1)}
 		}
@@ -642,7 +649,7 @@ func (m *c18Machine) drawDirective(t *rapid.T, kind int, rd *c18Round) c18Direct
 	d := c18Directive{kind: kind, withRes: rapid.Bool().Draw(t, "withRes")}
 	switch kind {
 	case c18Plain:
-		d.plainKind = rapid.SampledFrom([]string{"ptr", "ptr", "ptr", "ptr", "value", "canceled", "deadline", "wraps-canceled"}).Draw(t, "plainKind")
+		d.plainKind = rapid.SampledFrom([]string{"ptr", "ptr", "ptr", "ptr", "value", "canceled", "deadline", "wraps-canceled", "uncomparable"}).Draw(t, "plainKind")
 	case c18Fatal:
 		d.depth = rd.depth
 		d.sentinel = rapid.SampledFrom([]string{"ptr", "ptr", "errors.New", "value", "wrapping", "canceled"}).Draw(t, "sentinel")
